@@ -17,7 +17,7 @@ func init() { registry["C01"] = propC01 }
 func propC01() *Property {
 	return &Property{
 		ID:          "C01",
-		Explanation: "Whole-program value-flow (taint) analysis over SSA with call/return matching (realizable paths), field-based for servitor structs and object-based for library structs, propagate-by-default summaries for library calls. Sources: the TLS connection and everything derived from it (status line, headers, decoded JSON, read/parse errors), files opened for local documents, every string leaving the untyped JSON world by a type assertion, and text re-materialised by the HTML parser (html.Attribute.Val, html.Node.Data of non-element nodes). Sanitiser: ansi.Scrub (hence GetString and SetLength). Sinks: the argument of every call through ui.State.output and every direct write to stdout/stderr, the results of every implementation of pub.Tangible.String/Preview/Name and of every Markup.Render, and the SGR parameter of ansi.Apply (which may only be built from constants and validated configuration colours); string literals containing ESC/C0/C1 bytes may occur only in package ansi and main.printRaw. Decided: no unsanitised flow from any source to any sink on any path. Not decided: that ansi.Scrub's predicate (unicode.IsControl) is the right character class, library internals, terminal-specific interpretation of printable code points.",
+		Explanation: "Whole-program value-flow (taint) analysis over SSA with call/return matching (realizable paths), field-based for servitor structs and object-based for library structs, propagate-by-default summaries for library calls. Sources: the TLS connection and everything derived from it (status line, headers, decoded JSON, read/parse errors), files opened for local documents, every string leaving the untyped JSON world by a type assertion, and text re-materialised by the HTML parser (html.Attribute.Val, html.Node.Data of non-element nodes). Sanitiser: ansi.Scrub (hence GetString and SetLength). Sinks: the argument of every call through ui.State.output and every direct write to stdout/stderr, the results of every implementation of pub.Tangible.String/Preview/Name and of every Markup.Render, and the SGR parameter of ansi.Apply (which may only be built from constants and validated configuration colours); string literals containing ESC/C0/C1 bytes may occur only in package ansi and main.printRaw. Decided: no unsanitised flow from any source to any sink on any path. (R4) ansi.Scrub itself is shape-checked: every return is strings.Map over the input, the mapping function keeps a rune only on paths that know it is a line feed or not unicode.IsControl, a shortcut returning the input is accepted only under a whole-string test with unicode.IsControl; results of library decoders (html.UnescapeString, url.PathUnescape/QueryUnescape, strconv.Unquote, base64/hex, RFC 2047) are taint sources. Not decided: that ansi.Scrub's predicate (unicode.IsControl) is the right character class, library internals, terminal-specific interpretation of printable code points.",
 		Assumptions: []string{
 			"library functions propagate taint from any argument/receiver to every result and to every object reachable through reference arguments, and do nothing else with servitor state",
 			"ansi.Scrub removes every C0/C1/DEL control character except newline (its body is strings.Map over unicode.IsControl)",
